@@ -729,27 +729,34 @@ def check_param_kinds(ctx, r, tag):
     lists = [v[0] for k, v in kind_list.items()]
     if len(set(lists)) != len(lists):
         ctx.bad(tag, f, f.node, f"two parameter kinds are collected in the same list: {kind_list}", construct=f"kind->list {kind_list}")
-    # emission order: first statement that reads each list for emission
+    # emission order: the top-level statement in which each list is consumed (iterated, unpacked or
+    # indexed) -- a `for` loop, a comprehension, `[p] = lst`, `lst[0]`, `*lst`
     order = {}
+    read_anywhere = {}
     body_stmts = list(f.node.body)
     for idx, st in enumerate(body_stmts):
         for kind, ls in kind_list.items():
             l = ls[0]
+            if any(isinstance(x, ast.Call) and isinstance(x.func, ast.Attribute) and x.func.attr == "append" and norm(x.func.value) == l for x in ast.walk(st)) \
+                    and not any(isinstance(x, (ast.For, ast.comprehension)) and isinstance(x.iter, ast.Name) and x.iter.id == l for x in ast.walk(st)):
+                continue  # the classification / an extra parameter being added to the list
             emits = False
             for x in ast.walk(st):
-                if isinstance(x, ast.For) and isinstance(x.iter, ast.Name) and x.iter.id == l and any(
-                        isinstance(c, ast.Call) and isinstance(c.func, ast.Attribute) and c.func.attr == "append" and norm(c.func.value).startswith("argstr") for c in ast.walk(x)):
+                if isinstance(x, (ast.For, ast.comprehension)) and isinstance(x.iter, ast.Name) and x.iter.id == l:
                     emits = True
                 if isinstance(x, ast.Assign) and isinstance(x.value, ast.Name) and x.value.id == l and isinstance(x.targets[0], (ast.List, ast.Tuple)):
                     emits = True
-                # `argstr_pieces.extend(<something built from the list>)` / `+=`
-                if isinstance(x, ast.Call) and isinstance(x.func, ast.Attribute) and x.func.attr in ("extend", "append") and norm(x.func.value).startswith("argstr") \
-                        and any(isinstance(y, ast.Name) and y.id == l for a in x.args for y in ast.walk(a)):
+                if isinstance(x, ast.Subscript) and isinstance(x.value, ast.Name) and x.value.id == l and isinstance(x.ctx, ast.Load):
                     emits = True
-                if isinstance(x, ast.AugAssign) and norm(x.target).startswith("argstr") and any(isinstance(y, ast.Name) and y.id == l for y in ast.walk(x.value)):
+                if isinstance(x, ast.Starred) and isinstance(x.value, ast.Name) and x.value.id == l:
                     emits = True
+                if isinstance(x, ast.Name) and x.id == l and isinstance(x.ctx, ast.Load):
+                    read_anywhere[kind] = True
             if emits:
                 order.setdefault(kind, []).append(idx)
+    for k in KINDS:
+        if k in kind_list and k not in order and read_anywhere.get(k):
+            raise AnalysisError(f"{tag}: the list of {k} parameters (`{kind_list[k][0]}`) is read, but not in a form recognised as its emission into the synthetic signature")
     if not missing:
         seq = []
         for k in KINDS:
